@@ -367,7 +367,13 @@ func (f *frame) callHavocRes(x ssa.CallInstruction, callee *ssa.Function, st Sta
 	if keep == nil || len(ms.m) > 0 || len(ms.pats) > 0 {
 		nh = c.heapHavoc(st.heap, "call_"+sanitize(name), keep)
 		nh = c.restoreGlobals(st.heap, nh, ms)
-		nh = f.restoreLocals(st.heap, nh)
+		{
+			var siteInstr ssa.Instruction
+			if si, ok := x.(ssa.Instruction); ok {
+				siteInstr = si
+			}
+			nh = f.restoreLocals(st.heap, nh, siteInstr)
+		}
 	}
 	na := c.fresh("alloc", "Int")
 	c.assume(reach, ge(na, st.alloc.term()))
